@@ -37,12 +37,15 @@ Definition serr_code (e : serr) : N :=
   | EUriCount => 1 | EEmail => 2
   | EParse PScheme => 3 | EParse PUnescape => 4 | EParse PFormat => 5
   | EUnsupported => 6 | EDenied => 7 | EDatacenter => 8 | ETrustDomain => 9
-  | ENotAgent => 10 | EWrongNode => 11
+  | ENotAgent => 10 | EWrongNode => 11 | EDecorated => 12
   end.
+
+Definition deco_eqb (a b : deco) : bool :=
+  match a, b with DNone, DNone | DUser, DUser | DForm, DForm => true | _, _ => false end.
 
 Definition url_eqb (a b : url) : bool :=
   (u_scheme a =? u_scheme b)%string && (u_host a =? u_host b)%string && (u_path a =? u_path b)%string
-  && (u_raw a =? u_raw b)%string && Bool.eqb (u_plain a) (u_plain b).
+  && (u_raw a =? u_raw b)%string && deco_eqb (u_deco a) (u_deco b).
 
 Definition run_sign (c : sign_case) : res N leaf :=
   let az := Authz (tab_lookup (sc_svc c)) (tab_lookup (sc_node c)) (sc_mesh c) (sc_acl c) in
